@@ -100,6 +100,11 @@ def cases(tier, rng):
                 yield dict(c, ops=[['pop', s] for s in sizes if s > 0] + [['pop', rng.randint(1, 60)], ['pop', 40]])
             yield dict(c, ops=[['pop', rng.randint(1, 25)] for _ in range(rng.randint(1, 8))] + [['pop', 120]])
     yield from _audit_cases(quick, rng)
+    # a queue to which NOTHING was appended: silence and 'empty' from every class
+    for pol in qc.POLICIES:
+        for ops in ([['pop', 5], ['pop', 3]], [['pop', 0], ['pop', 1]]):
+            yield {'pol': pol, 'gs': 2, 'stims': [], 'fs': rng.choice(FS), 't0': rng.choice([0, 9]), 'seed': 1,
+                   'ops': ops, 'fill': 'append'}
 
 
 def _chunkings(c, rng, k=2, tail=40):
